@@ -260,7 +260,7 @@ def snapshot(rec):
         "id": rec.id, "name": rec.name, "description": rec.description,
         "dbxrefs": list(rec.dbxrefs),
         "features": [
-            {"type": f.type, "id": f.id, "loc": _canon_loc(f.location), "qualifiers": [[str(k), _canon_value(v)] for k, v in f.qualifiers.items()]}
+            {"type": f.type, "id": f.id, "loc": _canon_loc(f.location), "qualifiers": sorted([str(k), _canon_value(v)] for k, v in f.qualifiers.items())}
             for f in rec.features
         ],
         "annotations": ann,
@@ -474,7 +474,7 @@ def canon_exception(exc, env):
             d["sequence"] = str(s)[:40]
         d["details"] = exc.details
     else:
-        d["msg"] = str(exc)[:160]
+        d["msg"] = re.sub(r" at 0x[0-9a-fA-F]+", "", str(exc))[:160]
     return d
 
 
@@ -738,9 +738,9 @@ def _content_to_id(cat):
 
 def citations_of_snapshot(cat, snap):
     """uid -> reference ids cited, read off a product snapshot (a kept product is
-    the source of the features that a later assembly inherits from it)."""
-    c2i = _content_to_id(cat)
-    ids = [c2i.get(_ref_content_key(r)) for r in snap["references"]]
+    the source of the features that a later assembly inherits from it).  A reference
+    that cannot be attributed to one catalogue entry leaves the tag without expectation."""
+    poss = [possible_ids(cat, r) for r in snap["references"]]
     out = {}
     for f in snap["features"]:
         q = dict((k, v) for k, v in f["qualifiers"])
@@ -748,10 +748,11 @@ def citations_of_snapshot(cat, snap):
         if not notes:
             continue
         got = []
-        for c in q.get("citation", []) or []:
+        cit = q.get("citation", []) or []
+        for c in (cit if isinstance(cit, (list, tuple)) else [cit]):
             m = _CIT.match(c) if isinstance(c, str) else None
-            if m and 1 <= int(m.group(1)) <= len(ids):
-                got.append(ids[int(m.group(1)) - 1])
+            if m and 1 <= int(m.group(1)) <= len(poss) and len(poss[int(m.group(1)) - 1]) == 1:
+                got.append(next(iter(poss[int(m.group(1)) - 1])))
             else:
                 got = None
                 break
@@ -759,10 +760,34 @@ def citations_of_snapshot(cat, snap):
     return out
 
 
+def _bib_key(full_key):
+    """The bibliographic part of a full reference key (title, authors, journal, consortium,
+    medline id, pubmed id) - without the remark and the span the entry documents."""
+    return tuple(full_key[0][:6])
+
+
+def possible_ids(cat, canon_ref):
+    """Catalogue references a product reference may stand for.  An exact match on everything
+    Reference.__eq__ compares gives one id.  A product entry whose span / remark differ from
+    every catalogue entry (an implementation may clear or remap the span on the product's own
+    copies - it is meaningless in product coordinates) stands for any catalogue entry with the
+    same bibliographic fields."""
+    key = _ref_content_key(canon_ref)
+    if key is None:
+        return frozenset()
+    c2i = _content_to_id(cat)
+    if key in c2i:
+        return frozenset([c2i[key]])
+    return frozenset(i for k, i in c2i.items() if _bib_key(k) == _bib_key(key))
+
+
 def check_citations(cat, prod, edits=(), overrides=None):
-    """prod: snapshot of the product.  Returns list of (clause, detail)."""
+    """prod: snapshot of the product.  Returns list of (clause, detail).
+
+    C10.target is judged set-wise: every citation value of an inherited feature points to a
+    reference its source feature cited, and every reference the source cited is pointed to.
+    Order and multiplicity of the values inside one qualifier are left open by the statement."""
     fails = []
-    content_to_id = _content_to_id(cat)
     # allowed[uid] = the citation lists a feature with this tag may carry: what its source
     # cites now, or - when the call's inputs are kept products - what each of those products
     # carried for it (two kept products may hold the same tag in different states)
@@ -770,8 +795,15 @@ def check_citations(cat, prod, edits=(), overrides=None):
     for u, lists in (overrides or {}).items():
         allowed[u] = None if any(v is None for v in lists) else list(lists)
     prefs = prod["references"]
-    pref_ids = [content_to_id.get(_ref_content_key(r)) for r in prefs]
+    pref_poss = [possible_ids(cat, r) for r in prefs]
     cited = set()
+
+    def matches(got, expected):
+        exp = set(expected)
+        if not all(p & exp for p in got):
+            return False
+        return all(any(e in p for p in got) for e in exp)
+
     for f in prod["features"]:
         q = dict((k, v) for k, v in f["qualifiers"])
         notes = [n for n in q.get("note", []) if isinstance(n, str) and n.startswith("uid:")]
@@ -782,7 +814,7 @@ def check_citations(cat, prod, edits=(), overrides=None):
             continue
         got = []
         ok = True
-        for c in cit:
+        for c in (cit if isinstance(cit, (list, tuple)) else [cit]):
             m = _CIT.match(c) if isinstance(c, str) else None
             if m is None:
                 fails.append(("C10.form", "citation value %s is not of the form [n]" % _short(c, 80)))
@@ -793,16 +825,20 @@ def check_citations(cat, prod, edits=(), overrides=None):
                 fails.append(("C10.form", "citation [%d] out of range of the product's %d references" % (k, len(prefs))))
                 ok = False
                 continue
-            got.append(pref_ids[k - 1])
+            got.append(pref_poss[k - 1])
         if not ok:
             continue
         if notes and allowed.get(notes[0]) is not None:
-            if got not in allowed[notes[0]]:
-                fails.append(("C10.target", "feature %s cites %s, its source cited %s" % (notes[0], got, allowed[notes[0]] if len(allowed[notes[0]]) > 1 else allowed[notes[0]][0])))
-            cited.update(got)
-    for rid in sorted(x for x in cited if x is not None):
-        n = pref_ids.count(rid)
-        if n != 1:
+            if not any(matches(got, e) for e in allowed[notes[0]]):
+                shown = [sorted(p) if len(p) != 1 else next(iter(p)) for p in got]
+                fails.append(("C10.target", "feature %s cites %s, its source cited %s" % (notes[0], shown, allowed[notes[0]] if len(allowed[notes[0]]) > 1 else allowed[notes[0]][0])))
+            for e in allowed[notes[0]]:
+                cited.update(e)
+    # each cited reference once: no entry that is unambiguously the same catalogue reference
+    # appears twice (entries that cannot be attributed to one catalogue reference are not counted)
+    for rid in sorted(cited):
+        n = sum(1 for p in pref_poss if p == frozenset([rid]))
+        if n > 1:
             fails.append(("C10.once", "reference %s occurs %d times in the product's reference list" % (rid, n)))
     return fails
 
@@ -878,18 +914,17 @@ def execute(case):
         stats["op:" + k] += 1
         rec = {"step": i, "id": op.get("id"), "client": op.get("client"), "op": k, "fault": faults.get(op.get("id")), "outcome": kernel.digest_of(out)[:16], "purity": ev["purity"]}
         this_kind = prev_kind
-        if k in ("edit_seq", "repair"):
+        if k in ("edit_seq", "repair", "edit_annot", "edit_citation"):
             edits.append(op)
+            # A wrapper that exists while the caller edits its record may legitimately hold anything
+            # it derived from the record before the edit (moclo caches the structure match; an
+            # implementation may match eagerly at wrap time, or cache an extracted fragment).  Calls
+            # through such a wrapper are judged for purity only, until the client re-wraps.
+            related = {op["rec"]} | set(r_["id"] for r_ in cat["pool"] if (r_.get("derive") or {}).get("from") == op["rec"])
             for h, wd in wdefs.items():
-                if wd["rec"] == op["rec"] and matched_at.get(h):
+                if wd["rec"] in related:
                     stale.add(h)
-            probes["edit:" + k] += 1
-        elif k == "edit_annot":
-            edits.append(op)
-            probes["edit:annot"] += 1
-        elif k == "edit_citation":
-            edits.append(op)
-            probes["edit:citation"] += 1
+            probes["edit:" + {"edit_seq": "edit_seq", "repair": "repair", "edit_annot": "annot", "edit_citation": "citation"}[k]] += 1
         elif k == "probe":
             probes["probe:" + op["method"]] += 1
             if op["h"] in wdefs:
@@ -981,7 +1016,9 @@ def execute(case):
                     probes["product-with-cited-inputs"] += 1
                     if any(k2 == "citation" for f in prod["features"] for k2, _ in f["qualifiers"]):
                         probes["product-carries-citation"] += 1
-                for clause, detail in check_citations(cat, prod, edits, overrides):
+                    if any(k2 == "citation" for f in prod["features"] if any(k3 == "note" and any(str(n).startswith("uid:") for n in v3) for k3, v3 in f["qualifiers"]) for k2, _ in f["qualifiers"]):
+                        probes["tagged-cited-feature-traced-into-product"] += 1
+                for clause, detail in ([] if malformed or used_stale else check_citations(cat, prod, edits, overrides)):
                     failures.append({"property": "C10", "clause": clause, "op": i, "op_id": op.get("id"), "signature": clause.split(".")[1], "expected": None, "observed": None, "detail": detail})
                 if not fired and not used_stale and cit and not malformed:
                     sref = reference(cat, list(edits), op, strip=True)
@@ -1007,7 +1044,11 @@ def execute(case):
                 stale.discard("w:" + rid)
                 edits.append({k2: v2 for k2, v2 in op.items() if k2 not in ("id", "client")})
                 probes["product-kept"] += 1
-        if ev["purity"]:
+        if ev["purity"] and k != "assemble":
+            # the statement is about assemblies; a record that changed during a direct call on a
+            # wrapper or a re-wrap is only counted (the run child has already re-baselined it)
+            probes["input-changed-outside-an-assembly:" + k] += 1
+        elif ev["purity"]:
             d0 = ev["purity"][0]
             on = this_kind if k == "assemble" else k
             failures.append({"property": "C07", "clause": "C07.purity", "op": i, "op_id": op.get("id"), "signature": "on:%s" % on.split(":")[0] if not str(on).startswith("injected") else "on:injected",
@@ -1407,8 +1448,16 @@ def gen_case(spec):
     n_ops = g.randint(4, 36)
     fault_rate = g.choice([0.0, 0.0, 0.15, 0.3, 0.5]) if not spec.get("fault_free") else 0.0
     enabled_exc = g.sample(EXC_KINDS, g.randint(1, len(EXC_KINDS)))
+    def rewrap_after(client, rec_id):
+        # a caller who edited a record usually wraps it again before the next call
+        if g.random() < 0.6:
+            related = {rec_id} | set(r_["id"] for r_ in cat["pool"] if (r_.get("derive") or {}).get("from") == rec_id)
+            for w_ in cat["wrappers"]:
+                if w_["rec"] in related:
+                    add(client, {"op": "rewrap", "h": w_["h"]})
+
     broken = set()
-    mod_recs = [r["id"] for r in cat["pool"] if r["role"] == "module" and not r.get("source") and not r.get("derive")]
+    mod_recs = [r["id"] for r in cat["pool"] if not r.get("source") and not r.get("derive") and r.get("broken_seq")]
     lv2 = sc.get("level2")
     guard = 0
     while len(ops) < n_ops and guard < 40 * n_ops:
@@ -1448,9 +1497,11 @@ def gen_case(spec):
             else:
                 add(client, {"op": "edit_seq", "rec": r})
                 broken.add(r)
+            rewrap_after(client, r)
         elif x < 0.85:
             r = g.choice([r_ for r_ in cat["pool"] if not r_.get("derive")])["id"]
             add(client, {"op": "edit_annot", "rec": r, "what": g.choice(["description", "qualifier", "annotation"]), "feature": g.randrange(8), "value": "edit-%d" % len(ops)})
+            rewrap_after(client, r)
         elif x < 0.89:
             # (records that have a rotation-derived twin keep their citations: the twin holds a shallow
             # copy of each qualifier dictionary, so what an edit of the original means for the twin
@@ -1461,6 +1512,7 @@ def gen_case(spec):
                 rd, fd = g.choice(cands)
                 nref = len(rd["references"])
                 add(client, {"op": "edit_citation", "rec": rd["id"], "uid": fd["uid"], "citation": sorted(g.sample(range(1, nref + 1), g.randint(0, min(2, nref)))), "in_place": g.random() < 0.5})
+                rewrap_after(client, rd["id"])
         elif x < 0.94:
             add(client, {"op": "probe", "h": g.choice(cat["wrappers"])["h"], "method": g.choice(["target_sequence", "target_sequence", "overhang_start", "overhang_end", "is_valid"])})
         elif x < 0.97:
@@ -1565,7 +1617,7 @@ def catalogue_summary(case):
 
 EXPECTED_PROBES = {
     "C07": ["input-derived-by-rotation-shares-qualifiers", "level2-product", "product-kept", "product-reused-as-input", "inputs-sharing-an-id-string", "input-origin-on-fragment-start", "unused-modules-raised-as-error", "assemble-with-duplicate-reference-in-one-record", "assemble-with-malformed-citation", "probe:target_sequence", "edit:citation", "assemble-with-citations", "refinement-after-failure", "refinement-after-injected-fault", "same-instance-twice", "missing-module", "unused-modules-warning", "stale-wrapper-used", "edit:edit_seq", "rewrap"],
-    "C10": ["product-carries-citation", "product-with-cited-inputs"],
+    "C10": ["product-carries-citation", "product-with-cited-inputs", "tagged-cited-feature-traced-into-product"],
 }
 
 
@@ -1584,7 +1636,7 @@ def describe(prop):
         return (
             "fault_enumeration",
             "Each case is one simulated run over a shared pool of record objects and wrapper instances (synthetic plasmids for BsaI/BsmBI/BpiI/BbsI/SapI with feature tables, 0-3 references or none, cited features; plus real CIDAR kit assemblies with citations added). 'enumerate'/'lines' runs sample one assemble call, measure by a dry run how many calls it makes into its elements (K) / how many moclo line events occur inside target_sequence (L) and then inject an exception at EVERY call boundary k<K x {before,after} (resp. every line n<L, thorough) in consecutive calls on the SAME objects, with clean calls in between; 'random' runs interleave 1-3 clients issuing complete, gapped, duplicated, reverse-complemented, orphaned, invalid and repeated-instance calls, caller-level edits/repairs, re-wrapping and randomly placed faults. After every operation every pool record is compared with its snapshot (C07.purity); every call whose fault did not fire is compared with the same call executed first in a pristine process on a freshly built pool (C07.refinement / C07.recovery). Distinct = distinct run digest. Non-trivial = the run contained records with citations AND at least one failing call (natural or injected) followed by further operations.",
-            ["crash points are exceptions (Exception subclasses) raised at element-call boundaries or at moclo source lines inside fragment extraction; exceptions inside the restoring code itself and BaseException-only signals are outside the statement's quantifier",
+            ["crash points are exceptions (five Exception subclasses and an injected KeyboardInterrupt) raised at element-call boundaries or at moclo source lines inside fragment extraction (frames named target_sequence in the moclo package; frames of _assembly.py itself are not crash points: an exception inside the restoring code cannot be survived by any implementation that mutates temporarily)",
              "operations are atomic (synchronous library, no thread-safety promise)",
              "purity is by value over a canonical deep snapshot (sequence, ids, features, qualifiers, annotations, references; absent reference list == empty)",
              "sampled scenarios, enumerated crash points per scenario: evidence, not proof"],
@@ -1592,8 +1644,8 @@ def describe(prop):
     return (
         "exploration",
         "Same simulated runs as C07 (one simulation, two oracles). For every assemble that returns a product the citation oracle - computed from the generated catalogue only - checks: every citation qualifier is '[n]' within the product's reference list (C10.form); each inherited feature, traced by its unique note tag, cites exactly the references its source cited, in order (C10.target); each cited reference occurs once (C10.once); product sequence/features equal those of the same call on inputs stripped of citations, executed in a pristine process (C10.same-as-without); inputs' citation data unchanged (C10.inputs). Consecutive calls, calls after failed calls and after injected faults are part of every history. Distinct = distinct run digest. Non-trivial = at least one product in the run carried a citation qualifier inherited from an input.",
-        ["generator restrictions: citations well-formed and in range; one record never lists two references equal by content; citation lists not aliased between features",
-         "references are distinguished by title (distinct per generated reference)",
+        ["the C10 clauses are judged only for calls whose inputs carry well-formed, in-range citations and whose wrappers were created after the last caller edit of their record; citation lists are not aliased between features",
+         "a product reference is attributed to a catalogue reference by everything Reference.__eq__ compares, falling back to the bibliographic fields when span/remark were not carried over; targets are compared set-wise per feature",
          "sampled histories: evidence, not proof"],
     )
 
